@@ -1,8 +1,155 @@
-/- Driver handler owned by property C06: `c06 <args…>` requests. -/
+/-
+  Driver handler owned by property C06: `c06 <args…>` requests.
+
+    c06 lex <hex utf-8 source | -> <table | ->
+        table = `cp:flags,cp:flags,…` (cp hexadecimal; flags decimal: bit 0
+        XID_Start, bit 1 XID_Continue, bit 2 White_Space) — the lexer's Unicode
+        predicates for the characters of this input, as computed by the real
+        functions on the Rust side; characters not listed have flags 0
+      → `done kind,start,end;kind,start,end;…` | `panic` | `hang` | `bad-utf8`
+    c06 crange <hex source | -> <start> <end>
+      → `ok <a> <b>` | `panic`
+    c06 cycle <old|fixed> <defs> <order: i,j,… | ->
+        defs = definitions separated by `;`: `O` opaque, `L` list, `F<ty>…` fields
+        ty = `v<i>` | `l` | `u` | `r(<ty>…)` | `n<i>(<ty>…)`
+      → `ok` | `err` | `hang`
+    c06 convert <defs> <ty> <fuel>
+      → `returns` | `stops` | `recursing`
+-/
+import RotoV.Model.Lexer
+import RotoV.Model.TypeCycle
 import Driver.Util
 
 namespace Driver.C06
+open RotoV RotoV.Lex
 
-def handle (_args : List String) : String := "bad-op"
+def hexNat (s : String) : Option Nat :=
+  s.toList.foldl (fun acc c => match acc, hexVal c with
+    | some a, some d => some (a * 16 + d)
+    | _, _ => none) (some 0)
+
+def parseTable (s : String) : Option (List (Nat × Nat)) :=
+  if s = "-" then some [] else
+  (s.splitOn ",").foldr (fun e acc =>
+    match acc, e.splitOn ":" with
+    | some l, [cp, fl] =>
+      match hexNat cp, fl.toNat? with
+      | some c, some f => some ((c, f) :: l)
+      | _, _ => none
+    | _, _ => none) (some [])
+
+def flagsOf (tbl : List (Nat × Nat)) (c : Char) : Nat :=
+  match tbl.find? (fun e => e.1 = c.toNat) with
+  | some e => e.2
+  | none => 0
+
+def mkPreds (tbl : List (Nat × Nat)) : Preds where
+  xidStart c := flagsOf tbl c % 2 = 1
+  xidContinue c := (flagsOf tbl c / 2) % 2 = 1
+  whitespace c := (flagsOf tbl c / 4) % 2 = 1
+
+def decode (hex : String) : Option (List Char) :=
+  if hex = "-" then some [] else
+  match unhex hex with
+  | none => none
+  | some bs =>
+    match String.fromUTF8? (ByteArray.mk bs.toArray) with
+    | some s => some s.toList
+    | none => none
+
+def showToks (ts : List OutTok) : String :=
+  ";".intercalate (ts.map fun t => s!"{t.kind.name},{t.start},{t.stop}")
+
+/-! cycle-check requests -/
+open RotoV.TypeCycle in
+mutual
+partial def pTy : List Char → Option (Ty × List Char)
+  | 'l' :: r => some (.leaf, r)
+  | 'u' :: r => some (.unresolved, r)
+  | 'v' :: r =>
+    let (ds, r) := r.span Char.isDigit
+    some (.var (String.ofList ds).toNat!, r)
+  | 'r' :: '(' :: r =>
+    match pTys r with
+    | some (ts, ')' :: r) => some (.record ts, r)
+    | _ => none
+  | 'n' :: r =>
+    let (ds, r) := r.span Char.isDigit
+    match r with
+    | '(' :: r =>
+      match pTys r with
+      | some (ts, ')' :: r) => some (.name (String.ofList ds).toNat! ts, r)
+      | _ => none
+    | _ => none
+  | _ => none
+partial def pTys (s : List Char) : Option (List RotoV.TypeCycle.Ty × List Char) :=
+  match pTy s with
+  | none => some ([], s)
+  | some (t, r) =>
+    match pTys r with
+    | some (ts, r) => some (t :: ts, r)
+    | none => none
+end
+
+open RotoV.TypeCycle in
+def pDef (s : String) : Option Def :=
+  match s.toList with
+  | ['O'] => some .opaque
+  | ['L'] => some .list
+  | 'F' :: r =>
+    match pTys r with
+    | some (ts, []) => some (.fields ts)
+    | _ => none
+  | _ => none
+
+open RotoV.TypeCycle in
+def pDefs (s : String) : Option Defs :=
+  (s.splitOn ";").foldr (fun e acc => match acc, pDef e with
+    | some l, some d => some (d :: l)
+    | _, _ => none) (some [])
+
+def pOrder (s : String) : Option (List Nat) :=
+  if s = "-" then some [] else
+  (s.splitOn ",").foldr (fun e acc => match acc, e.toNat? with
+    | some l, some n => some (n :: l)
+    | _, _ => none) (some [])
+
+open RotoV.TypeCycle in
+def handle (args : List String) : String :=
+  match args with
+  | ["lex", hex, tbl] =>
+    match decode hex, parseTable tbl with
+    | some src, some t =>
+      match tokenize (mkPreds t) src with
+      | .done ts => "done " ++ showToks ts
+      | .panic => "panic"
+      | .hang => "hang"
+    | none, _ => "bad-utf8"
+    | _, none => "bad-op"
+  | ["crange", hex, a, b] =>
+    match decode hex, a.toNat?, b.toNat? with
+    | some src, some a, some b =>
+      match characterRange src (a, b) with
+      | .ok r => s!"ok {r.1} {r.2}"
+      | .panic => "panic"
+    | _, _, _ => "bad-op"
+  | ["cycle", ver, defs, order] =>
+    let v? : Option Version := match ver with | "old" => some .old | "fixed" => some .fixed | _ => none
+    match v?, pDefs defs, pOrder order with
+    | some v, some ds, some o =>
+      match detect v ds 100000 [] o with
+      | some (.ok _) => "ok"
+      | some (.err _) => "err"
+      | none => "hang"
+    | _, _, _ => "bad-op"
+  | ["convert", defs, ty, fuel] =>
+    match pDefs defs, pTy ty.toList, fuel.toNat? with
+    | some ds, some (t, []), some f =>
+      match convert ds f t with
+      | some true => "returns"
+      | some false => "stops"
+      | none => "recursing"
+    | _, _, _ => "bad-op"
+  | _ => "bad-op"
 
 end Driver.C06
